@@ -72,18 +72,16 @@ def uuid_cli(ctx, sc_code, rs, name):
     rulesets.write_ruleset(rs, rd)
     env = common.subenv()
     env["PYTHONPATH"] = sc_code
-    r1 = subprocess.run([common.PY, "pcfg_guesser.py", "-r", name, "-s", "s_" + name, "-n", "3", "--skip_brute"], cwd=sc_code,
-                        stdin=subprocess.PIPE, stdout=subprocess.PIPE, stderr=subprocess.PIPE, env=env, timeout=60)
+    common.run_cli([common.PY, "pcfg_guesser.py", "-r", name, "-s", "s_" + name, "-n", "3", "--skip_brute"], sc_code, env, 60)
     sav = os.path.join(sc_code, "s_" + name + ".sav")
     if not os.path.exists(sav):
         return [], False
     cfgp = os.path.join(rd, "config.ini")
     txt = open(cfgp).read().replace("uuid = " + rs["uuid"], "uuid = 00000000-0000-0000-0000-00000000beef")
     open(cfgp, "w").write(txt)
-    r2 = subprocess.run([common.PY, "pcfg_guesser.py", "-r", name, "-s", "s_" + name, "--load", "--skip_brute"], cwd=sc_code,
-                        stdin=subprocess.PIPE, stdout=subprocess.PIPE, stderr=subprocess.PIPE, env=env, timeout=60)
-    if r2.stdout.strip():
-        vio.append({"sig": "C08:uuid-not-refused", "what": "session with a different ruleset uuid was resumed: stdout %r" % r2.stdout[:80],
+    rc2, out2, err2 = common.run_cli([common.PY, "pcfg_guesser.py", "-r", name, "-s", "s_" + name, "--load", "--skip_brute"], sc_code, env, 60)
+    if out2.strip():
+        vio.append({"sig": "C08:uuid-not-refused", "what": "session with a different ruleset uuid was resumed: stdout %r" % out2[:80],
                     "replay": {"ruleset": rs, "cli": "uuid"}})
     return vio, True
 
